@@ -178,7 +178,7 @@ class NodeAssignDestructuring:
         if values.isList():
             values = values.value
         elif values.isSet():
-            values = values.value.sortedValues()
+            values = values.getSortedItems()
         else:
             raise CklRuntimeError(
                 ValueString("ERROR"),
@@ -772,6 +772,21 @@ class NodeFor:
         self.pos = pos
         self.what = what
 
+    def destructure(self, value):
+        if value.isList():
+            vals = value.value
+        elif value.isSet():
+            vals = value.getSortedItems()
+        else:
+            raise CklRuntimeError(
+                ValueString("ERROR"),
+                f"Destructuring for expects list or set but got {value.type()}",
+                self.pos,
+            )
+        if len(vals) < len(self.identifiers):
+            vals = vals + [NULL] * (len(self.identifiers) - len(vals))
+        return vals
+
     def evaluate(self, environment):
         lst = self.expression.evaluate(environment)
         if lst.isInput():
@@ -785,10 +800,7 @@ class NodeFor:
                     if len(self.identifiers) == 1:
                         environment.put(self.identifiers[0], value)
                     else:
-                        if value.isList():
-                            vals = value.value
-                        elif value.isSet():
-                            vals = value.value.sortedValues()
+                        vals = self.destructure(value)
                         for i in range(len(self.identifiers)):
                             environment.put(self.identifiers[i], vals[i])
 
@@ -820,10 +832,7 @@ class NodeFor:
                 if len(self.identifiers) == 1:
                     environment.put(self.identifiers[0], value)
                 else:
-                    if value.isList():
-                        vals = value.value
-                    elif value.isSet():
-                        vals = value.getSortedItems()
+                    vals = self.destructure(value)
                     for i in range(len(self.identifiers)):
                         environment.put(self.identifiers[i], vals[i])
                 result = self.block.evaluate(environment)
@@ -850,10 +859,7 @@ class NodeFor:
                 if len(self.identifiers) == 1:
                     environment.put(self.identifiers[0], value)
                 else:
-                    if value.isList():
-                        vals = value.value
-                    elif value.isSet():
-                        vals = value.getSortedItems()
+                    vals = self.destructure(value)
                     for i in range(len(self.identifiers)):
                         environment.put(self.identifiers[i], vals[i])
                 result = self.block.evaluate(environment)
@@ -889,10 +895,7 @@ class NodeFor:
                 if len(self.identifiers) == 1:
                     environment.put(self.identifiers[0], val)
                 else:
-                    if val.isList():
-                        vals = val.value
-                    elif val.isSet():
-                        vals = val.value.sortedValues()
+                    vals = self.destructure(val)
                     for i in range(len(self.identifiers)):
                         environment.put(self.identifiers[i], vals[i])
                 result = self.block.evaluate(environment)
@@ -928,10 +931,7 @@ class NodeFor:
                 if len(self.identifiers) == 1:
                     environment.put(self.identifiers[0], val)
                 else:
-                    if val.isList():
-                        vals = val.value
-                    elif val.isSet():
-                        vals = val.value.sortedValues()
+                    vals = self.destructure(val)
                     for i in range(len(self.identifiers)):
                         environment.put(self.identifiers[i], vals[i])
                 result = self.block.evaluate(environment)
